@@ -193,10 +193,13 @@ impl FileSystem {
 
     /// Write to the filesystem atomically.
     /// This is done by first writing to a temporary location and then moving the file.
+    #[allow(clippy::unused_async)] // deliberately no await inside, see below
     pub(crate) async fn prepare_file_write<'a>(&self, path: &'a Path) -> Result<FileWriter<'a>> {
         let tmp_name = format!(".tmp.{}.internal.part", self.tmp_file_counter.fetch_add(1, Ordering::SeqCst));
         let tmp_path = self.resolve_abs_path(tmp_name)?;
-        let file = File::create(&tmp_path).await?;
+        // No await point between creating the file and arming its cleanup (`FileWriter::drop`):
+        // a request future dropped while an asynchronous create is still in flight would leave the file behind.
+        let file = File::from_std(std::fs::File::create(&tmp_path)?);
         let writer = BufWriter::new(file);
         Ok(FileWriter {
             tmp_path,
